@@ -396,6 +396,16 @@ def _substitution(ck, prog):
           found=mis or "equivalent", slot="walk", where=g.loc(lp), note="(a stored site that is not S/T/Y is a don't-care: the setter never stores one)")
     rets = [n for n in ast.walk(g.node) if isinstance(n, ast.Return) and n.value is not None]
     want_ret = ["''.join(%s)" % S] if as_list else [S]
+    # an early `return self.seq` under "no phosphosite is stored" is the walk's own answer for that case (every residue is carried over)
+    al2 = _phos_aliases(g)
+    early = []
+    for st_ in g.body():
+        if isinstance(st_, ast.If) and not st_.orelse and st_.body and isinstance(st_.body[-1], ast.Return) and st_.body[-1].value is not None \
+                and unparse(st_.body[-1].value).replace(" ", "") in ("self.seq", "str(self.seq)"):
+            t_ = unparse(st_.test).replace(" ", "")
+            if any(t_ in ("not" + a_, "len(%s)==0" % a_, "%s==[]" % a_, "len(%s)<1" % a_, "notlen(%s)" % a_) for a_ in al2):
+                early.append(st_.body[-1])
+    rets = [r for r in rets if not any(r is e_ for e_ in early)]
     ck.ob("SIB-substitution", c2, [unparse(r.value).replace('"', "'").replace(" ", "") for r in rets] == want_ret, expected="returns the accumulated string",
           found=[unparse(r.value) for r in rets], slot="returns", where=g.loc())
     # ---- calculateKappaDistOfPhosphoStates
